@@ -18,6 +18,8 @@ pub struct Case {
     pub switches: Vec<Sw>,
     /// per thread: (call_no, monotonic jump ns, wall-clock jump ns) applied before that call
     pub jumps: Vec<Vec<(u32, i64, i64)>>,
+    /// per thread: (call_no, kilobytes of extra caller stack depth)
+    pub depths: Vec<Vec<(u32, u32)>>,
 }
 
 impl Case {
@@ -26,7 +28,7 @@ impl Case {
     }
     pub fn size(&self) -> (usize, usize, usize, usize, usize) {
         let intra = self.switches.iter().filter(|s| s.tick != 0).count();
-        let churn: usize = self.churn.iter().map(|c| c.len()).sum::<usize>() + self.jumps.iter().map(|c| c.len()).sum::<usize>();
+        let churn: usize = self.churn.iter().map(|c| c.len()).sum::<usize>() + self.jumps.iter().map(|c| c.len()).sum::<usize>() + self.depths.iter().map(|c| c.len()).sum::<usize>();
         let text: usize = self.threads.iter().flat_map(|t| t.iter()).map(|c| c.expr.len()).sum();
         (self.total_calls(), self.threads.len(), intra + churn, self.switches.len(), text)
     }
@@ -37,6 +39,7 @@ impl Case {
             "start": self.start,
             "switches": sim::switches_to_json(&self.switches),
             "clock_jumps": self.jumps.iter().map(|t| t.iter().map(|(k, a, b)| json!([k, a, b])).collect::<Vec<_>>()).collect::<Vec<_>>(),
+            "stack_depths_kb": self.depths.iter().map(|t| t.iter().map(|(k, a)| json!([k, a])).collect::<Vec<_>>()).collect::<Vec<_>>(),
         })
     }
     pub fn from_json(v: &Value) -> Option<Case> {
@@ -72,7 +75,22 @@ impl Case {
             }
         }
         jumps.resize(threads.len(), Vec::new());
-        Some(Case { threads, churn, start, switches, jumps })
+        let mut depths: Vec<Vec<(u32, u32)>> = Vec::new();
+        if let Some(ds) = v.get("stack_depths_kb").and_then(|c| c.as_array()) {
+            for t in ds {
+                let mut td = Vec::new();
+                for j in t.as_array().cloned().unwrap_or_default() {
+                    if let Some(a) = j.as_array() {
+                        if a.len() == 2 {
+                            td.push((a[0].as_u64().unwrap_or(0) as u32, a[1].as_u64().unwrap_or(0) as u32));
+                        }
+                    }
+                }
+                depths.push(td);
+            }
+        }
+        depths.resize(threads.len(), Vec::new());
+        Some(Case { threads, churn, start, switches, jumps, depths })
     }
     pub fn from_spec(pool: &Pool, spec: &RunSpec, start: u32, switches: Vec<Sw>) -> Case {
         Case {
@@ -85,6 +103,7 @@ impl Case {
             start,
             switches,
             jumps: spec.clock_jumps.clone(),
+            depths: spec.stack_depths.clone(),
         }
     }
 }
@@ -184,6 +203,11 @@ pub fn materialise(case: &Case, oc: &mut OracleCache) -> Option<(Pool, RunSpec)>
             let mut j = case.jumps.clone();
             j.resize(case.threads.len(), Vec::new());
             j
+        },
+        stack_depths: {
+            let mut d = case.depths.clone();
+            d.resize(case.threads.len(), Vec::new());
+            d
         },
     };
     Some((pool, spec))
